@@ -10,6 +10,7 @@ import (
 	"github.com/fluffle/goirc/client"
 
 	"verif/harness/drv"
+	"verif/harness/memconn"
 )
 
 func init() {
@@ -280,7 +281,90 @@ func c09Session(c *Ctx, nSenders, perSender int, pacing string, procs int) {
 	c.RunCases([]Case{cs})
 }
 
+// c09DoubleConnect: two goroutines call Connect at the same time while the dial is slow (a supervisor loop and a
+// DISCONNECTED handler both trying to reconnect, say). Whatever each call returns, the lines one goroutine issues
+// afterwards must reach a server exactly once each and in order: there is one outgoing pipeline per client.
+func c09DoubleConnect(c *Ctx) {
+	for k := 0; k < c.Pick(3, 12); k++ {
+		url, conns := memconn.Listen()
+		memconn.PresetDialDelay(url, time.Duration(c.R.Range(5, 40))*time.Millisecond)
+		cfg := client.NewConfig("me", "ident", "Real")
+		cfg.Server, cfg.Proxy, cfg.Flood, cfg.PingFreq = "irc.test", url, true, 0
+		conn := client.Client(cfg)
+		desc := "two concurrent Connect calls during a slow dial, then 300 numbered lines from one goroutine"
+		rp := map[string]interface{}{"op": "double-connect-send"}
+		c.Journal("C09 " + desc)
+		errs := make(chan error, 2)
+		for i := 0; i < 2; i++ {
+			go func() { errs <- conn.Connect() }()
+		}
+		e1, e2 := <-errs, <-errs
+		if e1 != nil && e2 != nil {
+			c.Res.Inconclusive++
+			continue
+		}
+		var srvs []*memconn.Conn
+	collect:
+		for {
+			select {
+			case s := <-conns:
+				srvs = append(srvs, s)
+			case <-time.After(50 * time.Millisecond):
+				break collect
+			}
+		}
+		const n = 300
+		for q := 0; q < n; q++ {
+			conn.Privmsg("#c", fmt.Sprintf("seq-%d", q))
+		}
+		conn.Raw("PING :end-of-run")
+		deadline := time.Now().Add(10 * time.Second)
+		var got []string
+		for time.Now().Before(deadline) {
+			got = got[:0]
+			end := false
+			for _, s := range srvs {
+				for _, l := range s.Lines() {
+					if strings.HasPrefix(l, "PRIVMSG #c :seq-") {
+						got = append(got, strings.TrimPrefix(l, "PRIVMSG #c :seq-"))
+					}
+					end = end || l == "PING :end-of-run"
+				}
+			}
+			if end || !conn.Connected() {
+				break
+			}
+			time.Sleep(time.Millisecond)
+		}
+		time.Sleep(5 * time.Millisecond)
+		c.Res.Traces++
+		c.Res.Evaluations++
+		c.Dist(fmt.Sprintf("tag:double-connect/succeeded=%d/dials=%d", btoi(e1 == nil)+btoi(e2 == nil), len(srvs)))
+		bad := ""
+		if len(got) != n {
+			bad = fmt.Sprintf("%d of the %d lines reached a server (Connected()=%v, %d dials, Connect returned %v and %v)", len(got), n, conn.Connected(), len(srvs), e1, e2)
+		}
+		for i, g := range got {
+			if g != fmt.Sprint(i) && bad == "" {
+				bad = fmt.Sprintf("line %d on the wire is seq-%s (lines of one goroutine out of order or duplicated; %d dials)", i, g, len(srvs))
+			}
+		}
+		if bad != "" {
+			c.SpecFail("spec", desc, "", bad, rp)
+		}
+		go conn.Close()
+	}
+}
+
+func btoi(b bool) int {
+	if b {
+		return 1
+	}
+	return 0
+}
+
 func c09(c *Ctx) {
+	c09DoubleConnect(c)
 	for i := 0; i < c.Pick(10, 80); i++ {
 		ns := []int{1, 2, 3, 5, 8, 32}[c.R.N(6)]
 		per := []int{1, 10, 33, 100, 400}[c.R.N(5)]
